@@ -247,6 +247,50 @@ pub fn child_digest(args: &[String]) -> i32 {
     }
 }
 
+/// Case number `i` of the cross-process comparison (regenerated from the seed).
+fn check_cross(i: &u64, seed: u64, rec: &mut Rec) -> CheckResult {
+    let exe = std::env::current_exe().map_err(|e| Fail::new("harness-io", e.to_string()))?;
+    let dir = format!("{}/work/c15", crate::engine::out_dir());
+    let _ = std::fs::create_dir_all(&dir);
+    rec.eval();
+    let r = gen::Recipe { kind: (1 + *i % 2) as u8, n: 300 + (crate::engine::mix(seed, *i) % 3000), seed: crate::engine::mix(seed ^ 0xc15, *i), fanout: 2 + (*i % 5) as u8, keylen: 8, values: (*i % 4) as u8 };
+    let set = r.values == 0;
+    let geom = [None, Some((7usize, 2usize)), Some((64, 2)), Some((2, 1))][(*i % 4) as usize];
+    let input = FstInput::new(if set { Front::RawAdd } else { Front::RawInsert }, geom, r.pairs());
+    let here = gen::build(&input).map_err(|e| Fail::new("build-error", e))?.bytes;
+    let want = format!("{:016x} {}", fnv(&here), here.len());
+    let path = format!("{}/case-{}-{}.json", dir, std::process::id(), i);
+    std::fs::write(&path, serde_json::to_string(&input.to_json()).unwrap()).map_err(|e| Fail::new("harness-io", e.to_string()))?;
+    let fronts: &[Front] = if set { &[Front::RawAdd, Front::SetFromIter, Front::SetExtendStream] } else { &[Front::RawInsert, Front::MapFromIter, Front::MapExtendStream] };
+    for f in fronts {
+        let out = std::process::Command::new(&exe).arg("child-digest").arg(&path).arg(f.name()).output().map_err(|e| Fail::new("harness-io", e.to_string()))?;
+        let got = String::from_utf8_lossy(&out.stdout).trim().to_string();
+        if !out.status.success() {
+            let _ = std::fs::remove_file(&path);
+            return Err(Fail::new("harness-child", format!("child process failed with {:?}", out.status)));
+        }
+        if got != want {
+            return Err(Fail::new("bytes-differ-across-processes", format!("a child process building the same sequence through {} produced digest/len '{}', this process '{}' (recipe {}, geometry {:?})", f.name(), got, want, r.to_json(), geom)));
+        }
+    }
+    // the same build in a process that is refused every allocation >= 256 KiB
+    // (only meaningful under the default geometry): it may die, it must not
+    // report a different file
+    if geom.is_none() {
+        let out = std::process::Command::new(&exe).arg("child-digest").arg(&path).arg(fronts[0].name()).arg("262144").output().map_err(|e| Fail::new("harness-io", e.to_string()))?;
+        let got = String::from_utf8_lossy(&out.stdout).trim().to_string();
+        if out.status.success() && !got.is_empty() && got != want {
+            let _ = std::fs::remove_file(&path);
+            return Err(Fail::new("bytes-differ-across-processes", format!("a child process that is refused allocations >= 256 KiB produced digest/len '{}' for the same sequence, this process '{}' (recipe {})", got, want, r.to_json())));
+        }
+        rec.class(if out.status.success() { "alloc_limited_child_same_bytes" } else { "alloc_limited_child_died(accepted)" });
+    }
+    let _ = std::fs::remove_file(&path);
+    rec.nontrivial(crate::engine::mix(input.hash(), 0xc15));
+    rec.class("cross_process_comparison");
+    Ok(())
+}
+
 fn cross_process(e: &Engine, n: usize) {
     // regenerate cases deterministically from the seed, build in-process and
     // in child processes through different front ends
@@ -255,45 +299,17 @@ fn cross_process(e: &Engine, n: usize) {
     let _ = std::fs::create_dir_all(&dir);
     let items: Vec<u64> = (0..n as u64).collect();
     let seed = e.seed;
-    e.run_list("child-processes", &items, |i| json!({"cross_process_case": i}), |i, rec| {
-        rec.eval();
-        let r = gen::Recipe { kind: (1 + *i % 2) as u8, n: 300 + (crate::engine::mix(seed, *i) % 3000), seed: crate::engine::mix(seed ^ 0xc15, *i), fanout: 2 + (*i % 5) as u8, keylen: 8, values: (*i % 4) as u8 };
-        let set = r.values == 0;
-        let geom = [None, Some((7usize, 2usize)), Some((64, 2)), Some((2, 1))][(*i % 4) as usize];
-        let input = FstInput::new(if set { Front::RawAdd } else { Front::RawInsert }, geom, r.pairs());
-        let here = gen::build(&input).map_err(|e| Fail::new("build-error", e))?.bytes;
-        let want = format!("{:016x} {}", fnv(&here), here.len());
-        let path = format!("{}/case-{}-{}.json", dir, std::process::id(), i);
-        std::fs::write(&path, serde_json::to_string(&input.to_json()).unwrap()).map_err(|e| Fail::new("harness-io", e.to_string()))?;
-        let fronts: &[Front] = if set { &[Front::RawAdd, Front::SetFromIter, Front::SetExtendStream] } else { &[Front::RawInsert, Front::MapFromIter, Front::MapExtendStream] };
-        for f in fronts {
-            let out = std::process::Command::new(&exe).arg("child-digest").arg(&path).arg(f.name()).output().map_err(|e| Fail::new("harness-io", e.to_string()))?;
-            let got = String::from_utf8_lossy(&out.stdout).trim().to_string();
-            if !out.status.success() {
-                let _ = std::fs::remove_file(&path);
-                return Err(Fail::new("harness-child", format!("child process failed with {:?}", out.status)));
-            }
-            if got != want {
-                return Err(Fail::new("bytes-differ-across-processes", format!("a child process building the same sequence through {} produced digest/len '{}', this process '{}' (recipe {}, geometry {:?})", f.name(), got, want, r.to_json(), geom)));
-            }
-        }
-        // the same build in a process that is refused every allocation >= 256 KiB
-        // (only meaningful under the default geometry): it may die, it must not
-        // report a different file
-        if geom.is_none() {
-            let out = std::process::Command::new(&exe).arg("child-digest").arg(&path).arg(fronts[0].name()).arg("262144").output().map_err(|e| Fail::new("harness-io", e.to_string()))?;
-            let got = String::from_utf8_lossy(&out.stdout).trim().to_string();
-            if out.status.success() && !got.is_empty() && got != want {
-                let _ = std::fs::remove_file(&path);
-                return Err(Fail::new("bytes-differ-across-processes", format!("a child process that is refused allocations >= 256 KiB produced digest/len '{}' for the same sequence, this process '{}' (recipe {})", got, want, r.to_json())));
-            }
-            rec.class(if out.status.success() { "alloc_limited_child_same_bytes" } else { "alloc_limited_child_died(accepted)" });
-        }
-        let _ = std::fs::remove_file(&path);
-        rec.nontrivial(crate::engine::mix(input.hash(), 0xc15));
-        rec.class("cross_process_comparison");
-        Ok(())
-    });
+    e.run_list("child-processes", &items, |i| json!({"cross_process_case": i, "seed": seed.to_string()}), |i, rec| check_cross(i, seed, rec));
+}
+
+/// Case number `i` of the larger sequences (regenerated from the seed).
+fn check_larger(i: &u64, seed: u64, rec: &mut Rec) -> CheckResult {
+    // one sequence beyond 10^5 keys: bulk entry points see large exact size hints
+    let n = if *i == 6 { 130_000 } else { 20_000 + *i * 1000 };
+    let values = if *i == 6 { 1 } else { (*i % 3) as u8 }; // the long one is a map (bulk map paths)
+    let r = gen::Recipe { kind: 1, n, seed: crate::engine::mix(seed, *i), fanout: 4, keylen: 10, values };
+    let c = Case { pairs: r.pairs(), set: r.values == 0, ty: 0, geom: if i % 2 == 0 { None } else { Some((64, 2)) }, parts: vec![0, 1, 2, 1, 0, 3], threads: true };
+    check(&c, rec)
 }
 
 pub fn run(e: &Engine) {
@@ -319,14 +335,7 @@ pub fn run(e: &Engine) {
     );
     let items: Vec<u64> = (0..e.tier.pick(7u64, 40)).collect();
     let seed = e.seed;
-    e.run_list("larger-sequences-threads", &items, |i| json!({"recipe_case": i}), |i, rec| {
-        // one sequence beyond 10^5 keys: bulk entry points see large exact size hints
-        let n = if *i == 6 { 130_000 } else { 20_000 + *i * 1000 };
-        let values = if *i == 6 { 1 } else { (*i % 3) as u8 }; // the long one is a map (bulk map paths)
-        let r = gen::Recipe { kind: 1, n, seed: crate::engine::mix(seed, *i), fanout: 4, keylen: 10, values };
-        let c = Case { pairs: r.pairs(), set: r.values == 0, ty: 0, geom: if i % 2 == 0 { None } else { Some((64, 2)) }, parts: vec![0, 1, 2, 1, 0, 3], threads: true };
-        check(&c, rec)
-    });
+    e.run_list("larger-sequences-threads", &items, |i| json!({"recipe_case": i, "seed": seed.to_string()}), |i, rec| check_larger(i, seed, rec));
     cross_process(e, e.tier.pick(24, 200));
     for cls in ["at_least_50_nodes", "built_in_16_threads", "cross_process_comparison"] {
         e.require_class(cls, 1);
@@ -335,8 +344,12 @@ pub fn run(e: &Engine) {
 
 pub fn replay(_sub: &str, case: &Value) -> Option<CheckResult> {
     let mut rec = Rec::new(0);
-    if case.get("cross_process_case").is_some() || case.get("recipe_case").is_some() {
-        return None;
+    let seed = || case.get("seed").and_then(|x| x.as_str()).and_then(|x| x.parse::<u64>().ok()).ok_or_else(bad);
+    if let Some(i) = case.get("cross_process_case").and_then(|x| x.as_u64()) {
+        return Some(crate::engine::guarded(|| check_cross(&i, seed()?, &mut rec)));
+    }
+    if let Some(i) = case.get("recipe_case").and_then(|x| x.as_u64()) {
+        return Some(crate::engine::guarded(|| check_larger(&i, seed()?, &mut rec)));
     }
     Some(crate::engine::guarded(|| check(&Case::from_json(case).ok_or_else(bad)?, &mut rec)))
 }
